@@ -177,10 +177,6 @@ BoolSize _ZNKSt8__detail20_Prime_rehash_policy14_M_need_rehashEmmm(RehashPolicy*
     }
     return {false, 0};
 }
-void _ZSt20__throw_length_errorPKc(const char*) { abort(); }
-void _ZSt17__throw_bad_allocv() { abort(); }
-void _ZSt28__throw_bad_array_new_lengthv() { abort(); }
-void _ZSt24__throw_out_of_range_fmtPKcz(const char*, ...) { abort(); }
 }
 // ---------------------------------------------------------------- std::filesystem::path (only what StatementBuilder's ctor touches)
 extern "C" {
